@@ -264,6 +264,105 @@ fn run_files(files: &Files) -> (Outcome, Vec<String>) {
     (out, read_log())
 }
 
+/// a blob field that is called like the namespace a module is imported under, used in the middle of access
+/// paths whose root is a value: `app.cfg.scale` with `use cfg`. The path reads the field; the module's globals
+/// of the same name stay what they are. Every placement of the module x plain/aliased import x the blob declared
+/// in main or in a third file x the module having globals called like the blob's fields or not x six path shapes.
+fn field_like_namespace_family(acc: &mut Stats) {
+    let shapes: [(&str, &str); 6] = [
+        ("read", "    print(app.{N}.scale)\n    print(app.{N}.title)\n"),
+        ("call-root", "    print(make(\"other\", 7).{N}.scale)\n"),
+        ("assign", "    app.{N}.scale = 5\n    print(app.{N}.scale)\n    app.{N}.scale += 2\n    print(app.{N}.scale)\n"),
+        ("three-levels", "    w := Wrap { app: app }\n    print(w.app.{N}.scale)\n    w.app.{N}.scale += 2\n    print(w.app.{N}.scale)\n    print(app.{N}.scale)\n"),
+        ("index-root", "    t := (app, 1)\n    print(t[0].{N}.title)\n"),
+        ("in-a-function", "    print(get(app))\n"),
+    ];
+    for place in [Place::Root, Place::Sub, Place::Exports] {
+        for alias in [false, true] {
+            for blob_in_main in [true, false] {
+                for collide in [false, true] {
+                    for (shape, body) in shapes {
+                        let (mod_file, use_path, default_ns) = match place {
+                            Place::Root => ("/p/cfg.sy", "cfg", "cfg"),
+                            Place::Sub => ("/p/sub/cfg.sy", "sub/cfg", "cfg"),
+                            Place::Exports => ("/p/sub/exports.sy", "sub/", "sub"),
+                        };
+                        let ns = if alias { "conf" } else { default_ns };
+                        let use_line = if alias { format!("use {} as conf\n", use_path) } else { format!("use {}\n", use_path) };
+                        let globals = if collide { "scale := 1\ntitle :: \"untitled\"\n" } else { "other := 1\nnick :: \"untitled\"\n" };
+                        let (g1, g2) = if collide { ("scale", "title") } else { ("other", "nick") };
+                        let module = |q: &dyn Fn(&str) -> String| format!("Config :: blob {{\n    scale: int,\n    title: str,\n}}\n{}defaults :: fn -> Config do\n    ret Config {{ scale: {}, title: {} }}\nend\n", globals, q(g1), q(g2));
+                        let app_decl = |q: &dyn Fn(&str) -> String| format!("App :: blob {{\n    name: str,\n    {}: {},\n}}\n", ns, q("Config"));
+                        let rest = |q: &dyn Fn(&str) -> String, a: &dyn Fn(&str) -> String| {
+                            format!(
+                                "Wrap :: blob {{\n    app: {app},\n}}\nmake :: fn name: str, scale: int -> {app} do\n    ret {app} {{ name: name, {ns}: {cfgt} {{ scale: scale, title: name }} }}\nend\nget :: fn a: {app} -> int\n    a.{ns}.scale\nend\nstart :: fn do\n    app := make(\"demo\", 3)\n{body}    print({g1})\n    print({g2})\n    print({defaults}().scale)\n    {g1} = 9\n    print({defaults}().scale)\n    print(app.{ns}.scale)\nend\n",
+                                app = a("App"),
+                                ns = ns,
+                                cfgt = q("Config"),
+                                body = body.replace("{N}", ns),
+                                g1 = q(g1),
+                                g2 = q(g2),
+                                defaults = q("defaults"),
+                            )
+                        };
+                        let bare = |n: &str| n.to_string();
+                        let qual = |n: &str| format!("{}.{}", ns, n);
+                        let single = format!("{}{}{}{}", PRINT, module(&bare), app_decl(&bare), rest(&bare, &bare));
+                        let mut files = Files::new();
+                        files.insert(mod_file.to_string(), module(&bare));
+                        if blob_in_main {
+                            files.insert(MAIN.to_string(), format!("{}{}{}{}", PRINT, use_line, app_decl(&qual), rest(&qual, &bare)));
+                        } else {
+                            files.insert("/p/types.sy".to_string(), format!("{}{}", use_line, app_decl(&qual)));
+                            let tq = |n: &str| format!("types.{}", n);
+                            files.insert(MAIN.to_string(), format!("{}{}use types\n{}", PRINT, use_line, rest(&qual, &tq)));
+                        }
+                        acc.evaluations += 2;
+                        acc.states += 1;
+                        acc.nontrivial(fnv(format!("{:?}", files).as_bytes()));
+                        let want = match compile_src(&single) {
+                            Outcome::Ok(lua) => {
+                                let r = run_lua(&lua, 5_000_000);
+                                if r.end != LuaEnd::Done {
+                                    eprintln!("MACHINERY: C12 single-file base fails: {:?}\n{}", r.end, single);
+                                    std::process::exit(2);
+                                }
+                                r.out
+                            }
+                            other => {
+                                eprintln!("MACHINERY: C12 single-file base does not compile: {}\n{}", other.short(), single);
+                                std::process::exit(2);
+                            }
+                        };
+                        let mut fm = serde_json::Map::new();
+                        for (k, v) in &files {
+                            fm.insert(k.clone(), json!(v));
+                        }
+                        let desc = format!("field `{}` of a blob next to `{}`, module at {}, blob declared in {}, module globals {}, path shape {}", ns, use_line.trim(), mod_file, if blob_in_main { "main" } else { "a third file" }, if collide { "named like the fields" } else { "named differently" }, shape);
+                        let (out, _) = run_files(&files);
+                        match &out {
+                            Outcome::Ok(lua) => {
+                                let r = run_lua(lua, 5_000_000);
+                                if r.end != LuaEnd::Done || r.out != want {
+                                    acc.outcome("behaviour-differs-from-single-file");
+                                    acc.fail(Failure { sig: "behaviour-differs-from-single-file".into(), preds: vec!["field-named-like-a-namespace".into()], detail: format!("{}\nsingle file prints {:?}\nproject prints    {:?} {:?}\n{:#?}", desc, want, r.out, r.end, files), case: json!({"engine": "c12", "files": fm, "expected": want, "expect": "same"}), size: files.len() * 1000 + 50 });
+                                } else {
+                                    acc.outcome("field-like-namespace:same-behaviour-as-single-file");
+                                    acc.traces_validated += 1;
+                                }
+                            }
+                            other => {
+                                acc.outcome("valid-project-rejected");
+                                acc.fail(Failure { sig: "valid-project-rejected".into(), preds: vec!["field-named-like-a-namespace".into()], detail: format!("{}\n{}\n{}\n{:#?}", desc, other.short(), if let Outcome::Err { errs, .. } = other { errs.iter().map(|e| e.dbg.clone()).collect::<Vec<_>>().join("\n") } else { String::new() }, files), case: json!({"engine": "c12", "files": fm, "expected": want, "expect": "same"}), size: files.len() * 1000 + 50 });
+                            }
+                        }
+                    }
+                }
+            }
+        }
+    }
+}
+
 pub fn run(run: &mut Run) {
     let thorough = run.thorough();
     let item_sets: Vec<Vec<&str>> = if thorough {
@@ -442,8 +541,12 @@ pub fn run(run: &mut Run) {
             acc.sample(json!({"layout": desc, "files": fm}));
         }
     });
+    let mut accs = accs;
+    let mut fam = Stats::new();
+    field_like_namespace_family(&mut fam);
+    accs.push(fam);
     run.stats = Stats::merge_all(accs);
-    run.rule = "item sets of 4-6 globals (constant, mutable, function using the constant, blob, enum, function mutating the mutable, function reading the constant only in an elif condition, function reading the variable only in a loop condition and a case-else arm); every non-main module also defines a private `start`; every assignment of the items to main + 1..2 further files x every placement of those files (root, sub-folder, sub/exports.sy) x import style per ordered file pair (use + qualified name, use as alias, from use, from use as; parenthesised lists when several names; /-rooted paths from sub-folder files; cyclic imports arise when items reference main or each other); each project also compiled with the main file spelled `main.sy`, `./main.sy`, `p/main.sy`, `../p/main.sy`, `./p/../p/main.sy` from matching working directories (same behaviour, every file read once under its normalised path); per project three families of negative twins (each import dropped, a missing name/module, a colliding alias); non-trivial = every project; distinct by file map".into();
+    run.rule = "item sets of 4-6 globals (constant, mutable, function using the constant, blob, enum, function mutating the mutable, function reading the constant only in an elif condition, function reading the variable only in a loop condition and a case-else arm); every non-main module also defines a private `start`; every assignment of the items to main + 1..2 further files x every placement of those files (root, sub-folder, sub/exports.sy) x import style per ordered file pair (use + qualified name, use as alias, from use, from use as; parenthesised lists when several names; /-rooted paths from sub-folder files; cyclic imports arise when items reference main or each other); each project also compiled with the main file spelled `main.sy`, `./main.sy`, `p/main.sy`, `../p/main.sy`, `./p/../p/main.sy` from matching working directories (same behaviour, every file read once under its normalised path); per project three families of negative twins (each import dropped, a missing name/module, a colliding alias); plus 144 projects in which a blob field is called like the namespace a module is imported under and sits in the middle of an access path whose root is a value (module at root / sub-folder / exports.sy x plain or aliased import x blob declared in main or a third file x module globals named like the blob's fields or not x six path shapes: read, call result root, assignment and +=, three levels, tuple-index root, inside a function), each compared with its single-file program; non-trivial = every project; distinct by file map".into();
     run.bounds = json!({"item_sets": item_sets, "projects": cases.len(), "style_vectors": if thorough {16} else {4}});
     run.assumptions = vec![
         "the reference behaviour is that of the single-file program (compiled and run the same way), which C01 ties to the source semantics".into(),
